@@ -525,6 +525,8 @@ class World:
         self.trace = []          # ops for Model/Reprocess.lean, in the order the real code performed them
         self.obs = []            # what the real code showed after each of them
         self.outside = None      # why this history is outside the model (None: inside)
+        if any(a.get('checkpoint') for a in algs):
+            self.outside = 'an execution that stores more than once (check-pointing) is outside Model/Reprocess'
         self.nodes = {}
         for r in S.ae.at:
             for n in r.iter():
@@ -738,6 +740,8 @@ class World:
                 self.tick()
             elif st[0] == 'bump':
                 self.apply_bump([(st[1], st[2])])
+            elif st[0] == 'org':
+                self.organize([st[1]], [st[2]])   # an explicit request for any algorithm
             elif st[0] == 'work':
                 m = [m for m in self.tasks if m.jobid == st[1] and (len(st) < 3 or (m.target or '__all__') == st[2])][0]
                 self.tasks.remove(m)
@@ -944,6 +948,10 @@ SMALL = {
                  {'task': 'demo', 'name': 'B', 'values': ['b'], 'inputs': [(0, 'r')], 'checkpoint': False},
                  {'task': 'demo', 'name': 'D', 'values': ['d'], 'inputs': [(2, 'b'), (1, 's')], 'checkpoint': False}],
                 ['T1']),
+    'checkpoint': ([{'task': 'demo', 'name': 'P', 'values': ['p', 'q'], 'inputs': [], 'checkpoint': True},
+                    {'task': 'demo', 'name': 'CP', 'values': ['cp'], 'inputs': [(0, 'p')], 'checkpoint': False},
+                    {'task': 'demo', 'name': 'CQ', 'values': ['cq'], 'inputs': [(0, 'q')], 'checkpoint': False}],
+                   ['T1']),
     'root-aspect': ([{'task': 'demo', 'name': 'R', 'values': ['r'], 'inputs': [], 'checkpoint': False},
                      {'task': 'agg', 'name': 'A', 'values': ['a'], 'inputs': [(0, 'r')], 'checkpoint': False,
                       'kind': 'analysis'},
@@ -973,6 +981,10 @@ def _small_task(args):
             for tag in sorted(w.roots):
                 for t in targets:
                     avail.append(('bump', tag, t))
+        if not any(s[0] == 'org' for s in prefix):
+            for a_ in algs:
+                if a_['inputs'] and kind_of(a_) == 'task':
+                    avail.append(('org', tag_of(a_), targets[0]))
         if not prefix or prefix[-1][0] != 'tick':
             avail.append(('tick',))
         for m in sorted(w.tasks, key=lambda m: (m.jobid, m.target or '__all__')):
@@ -1039,7 +1051,7 @@ def run_monitors(ctx, res, want):
         res.count('e2e:unit-executions', stats['executions'])
         res.count('e2e:overlaps', stats['overlaps'])
     if thorough:
-        exhaustive(ctx, res, depth=6, want=want)
+        exhaustive(ctx, res, depth=5, want=want)
     res.assumptions.append('end to end: the real pl.worker.cluster.execute on in-memory sockets, real shelve store '
                            'through the loop-back; fsm, chronicle file, md5sum/sha1sum sub-processes are replaced')
 
@@ -1118,7 +1130,7 @@ def run(ctx, res):
             c02_model.compare(res, c, o)
             res.traces += 1
     if thorough:
-        exhaustive(ctx, res, depth=int(os.environ.get('VERIF_C02_DEPTH', '7')))
+        exhaustive(ctx, res, depth=int(os.environ.get('VERIF_C02_DEPTH', '6')))
     res.assumptions.append('C02 end to end: sockets, Context.abort, fsm, chronicle and the md5sum/sha1sum '
                            'sub-processes are replaced (hashlib); tasks only, no analyses')
 
